@@ -1,31 +1,391 @@
-(* C16 - PLACEHOLDER statement file (C16_op / C16_frame / C16_mirror are written by the proof task);
-   computed facts about the model only. *)
-From PJ Require Import Base.Prelude Graph.Model Graph.Invariant.
+(* C16 (list level) - "Every mutator call that returns has exactly its documented effect: ... append puts the
+   task last, insert(i) puts a new task at index i, move puts it immediately before or after the anchor, sort
+   orders the children by the attribute (stably, reversed on request), reorder puts the listed ids first in the
+   given order, and remove, remove_all and WBS.remove take out exactly the named or matching tasks ... no
+   relation of any task that is neither named in the call nor attached to the edited list changes - in
+   particular the other siblings keep their relative order."
+
+   Statement file.  Part 1 (LIST LEVEL, written as Graph/StmtC16.v by the C16 proof task): what the children
+   list of the edited task is after an accepted call, and the frame of the calls that only permute one
+   children list.  Part 2 (SETTER LEVEL): the exact effect of the three setters on every field of every
+   task (re-parenting takes the subtree along, released tasks, the mirror side of links) and their frames;
+   the facades and operators on one task are calls of these setters (C16_frame_derived). *)
+From Coq Require Import Permutation Sorted.
+From PJ Require Import Base.Prelude Graph.Model Graph.Invariant Graph.OracleProofs Graph.EffectProofs.
+From PJ Require Import Graph.AncLemmas Graph.LinksProofs Graph.ParentProofs Graph.ChildrenProofsWrite Graph.ChildrenProofs.
+From PJ Require Graph.FrameProofs.
 Local Open Scope nat_scope.
 
-(* a concrete history: one WBS, three tasks (ids 1, 2, 1), task 2 below task 1 in the WBS, a dependency *)
-Definition demo_ops : list op :=
-  [NewWbs; NewTask 1%Z None [] None; NewTask 2%Z None [] None; NewTask 1%Z None [] None;
-   ChAppend 0 (Some 1); SetParent 2 (Some 1); SetLinks true 3 [Some 2]].
-Definition demo : state := run init demo_ops.
-(* documented effects on a list of three children: insert, move, stable sort, reorder, removal *)
-Example C16_demo_effects :
-  let s := run init [NewTask 0%Z None [] None; NewTask 3%Z (Some 1%Z) [98%Z] None; NewTask 1%Z (Some 1%Z) [97%Z] None;
-                     NewTask 2%Z (Some 0%Z) [97%Z; 98%Z] None; NewTask 5%Z None [] None; OpFloordiv 0 [Some 1; Some 2; Some 3]] in
-  let k o := kids (get (hp (fst (step s o))) 0) in
-  k (ChInsert 0 1%Z (Some 4)) = [1; 4; 2; 3] /\ k (ChInsert 0 (-1)%Z (Some 1)) = [2; 3; 1] /\
-  k (ChMove 0 [Some 3] (Some 1) None) = [3; 1; 2] /\ k (ChMove 0 [Some 1] None (Some 3)) = [2; 3; 1] /\
-  k (ChSort 0 KId false) = [2; 3; 1] /\ k (ChSort 0 KPrio false) = [3; 1; 2] /\ k (ChSort 0 KPrio true) = [1; 2; 3] /\
-  k (ChSort 0 KName false) = [2; 3; 1] /\ k (ChReorder 0 [2%Z; 3%Z]) = [3; 1; 2] /\ k (ChRemove 0 (Some 2)) = [1; 3] /\
-  k (SetChildren 0 [Some 3; None; Some 4; Some 3]) = [3; 4] /\
-  par (get (hp (fst (step s (SetChildren 0 [Some 3; Some 4])))) 1) = None.
+(* ---- move ---- *)
+Theorem C16_move : forall s o ts b a s',
+  WF s -> step s (ChMove o ts b a) = (s', OK) ->
+  let l := kids (get (hp s) o) in
+  let l' := kids (get (hp s') o) in
+  exists anchor before,
+    ((b = Some anchor /\ a = None /\ before = true) \/ (b = None /\ a = Some anchor /\ before = false)) /\
+    incl (somes ts) l /\ In anchor l /\ ~ In anchor (somes ts) /\
+    Permutation l' l /\
+    others (somes ts) l' = others (somes ts) l /\
+    (NoDup (somes ts) ->
+       exists pre post, others (somes ts) l = pre ++ anchor :: post /\
+         l' = pre ++ (if before then somes ts ++ anchor :: post else anchor :: rev (somes ts) ++ post)) /\
+    only_kids_changed o s s' /\ WF s'.
+Proof. exact EffectProofs.C16_move. Qed.
+
+Theorem C16_move_one : forall s o t b a s',
+  WF s -> step s (ChMove o [Some t] b a) = (s', OK) ->
+  let l := kids (get (hp s) o) in
+  let l' := kids (get (hp s') o) in
+  exists anchor pre post,
+    without t l = pre ++ anchor :: post /\
+    ((b = Some anchor /\ a = None /\ l' = pre ++ t :: anchor :: post) \/
+     (b = None /\ a = Some anchor /\ l' = pre ++ anchor :: t :: post)) /\
+    without t l' = without t l.
+Proof. exact EffectProofs.C16_move_one. Qed.
+
+(* ---- insert ---- *)
+Theorem C16_insert : forall s o i t s',
+  WF s -> step s (ChInsert o i (Some t)) = (s', OK) ->
+  let W := without t (kids (get (hp s) o)) in
+  let idx := py_index i (S (length W)) in
+  let l' := kids (get (hp s') o) in
+  exists s1, step s (SetParent t (Some o)) = (s1, OK) /\
+    idx <= length W /\
+    l' = firstn idx W ++ t :: skipn idx W /\
+    (forall d, nth idx l' d = t) /\ without t l' = W /\ length l' = S (length W) /\
+    Permutation l' (kids (get (hp s1) o)) /\
+    only_kids_changed o s1 s' /\ (WF s1 -> WF s').
+Proof. exact EffectProofs.C16_insert. Qed.
+
+(* ---- sort ---- *)
+Theorem C16_sort : forall s o k reverse s',
+  WF s -> step s (ChSort o k reverse) = (s', OK) ->
+  let l := kids (get (hp s) o) in
+  let l' := kids (get (hp s') o) in
+  let kf := key_or k (hp s) in
+  Forall (fun x => key_of k (get (hp s) x) = Ok (kf x)) l /\
+  Permutation l' l /\
+  StronglySorted (fun x y => sort_le reverse (kf x) (kf y) = true) l' /\
+  (forall kv, filter (fun x => keyv_eqb (kf x) kv) l' = filter (fun x => keyv_eqb (kf x) kv) l) /\
+  only_kids_changed o s s' /\ WF s'.
+Proof. exact EffectProofs.C16_sort. Qed.
+
+(* the order used: integers by <=, strings lexicographically by code point; reverse flips it.  On the keys of
+   one call (all of one kind) it is a total order, so "sorted + stable + permutation" determines the result *)
+Theorem C16_sort_order_total : forall r a b, sort_le r a b = false -> sort_le r b a = true.
+Proof. exact EffectProofs.sort_le_total. Qed.
+Theorem C16_sort_order_trans : forall r a b c,
+  is_vz a = is_vz b -> is_vz b = is_vz c -> sort_le r a b = true -> sort_le r b c = true -> sort_le r a c = true.
+Proof. exact EffectProofs.sort_le_trans. Qed.
+Theorem C16_sort_order_antisym : forall r a b,
+  is_vz a = is_vz b -> sort_le r a b = true -> sort_le r b a = true -> a = b.
+Proof. exact EffectProofs.sort_le_antisym. Qed.
+Theorem C16_sort_key_kind : forall k T v, key_of k T = Ok v -> is_vz v = kindb k.
+Proof. exact EffectProofs.key_of_kind. Qed.
+Theorem C16_sort_key_eqb : forall a b, keyv_eqb a b = true <-> a = b.
+Proof. exact EffectProofs.keyv_eqb_eq. Qed.
+
+(* ---- reorder ---- *)
+Theorem C16_reorder : forall s o ids s',
+  WF s -> step s (ChReorder o ids) = (s', OK) ->
+  let l := kids (get (hp s) o) in
+  let l' := kids (get (hp s') o) in
+  exists cs,
+    Forall2 (fun i c => find (fun c => Z.eqb (tid (get (hp s) c)) i) l = Some c) ids cs /\
+    map (fun c => tid (get (hp s) c)) cs = ids /\ NoDup cs /\ incl cs l /\
+    l' = cs ++ others cs l /\ Permutation l' l /\
+    only_kids_changed o s s' /\ WF s'.
+Proof. exact EffectProofs.C16_reorder. Qed.
+
+(* ---- append, assignment, remove, remove_all, //, WBS.remove: through the setters ---- *)
+Theorem C16_append : forall s o t s',
+  WF s -> step s (ChAppend o (Some t)) = (s', OK) ->
+  step s (SetParent t (Some o)) = (s', OK) /\
+  kids (get (hp s') o) = without t (kids (get (hp s) o)) ++ [t].
+Proof. exact EffectProofs.C16_append. Qed.
+
+Theorem C16_set_children_list : forall s t vs s',
+  step s (SetChildren t vs) = (s', OK) -> kids (get (hp s') t) = dedup (somes vs).
+Proof. exact EffectProofs.C16_set_children_list. Qed.
+
+Theorem C16_remove : forall s o t s',
+  WF s -> step s (ChRemove o (Some t)) = (s', OK) ->
+  kids (get (hp s') o) = without t (kids (get (hp s) o)) /\
+  (In t (kids (get (hp s) o)) ->
+     step s (SetChildren o (map Some (without t (kids (get (hp s) o))))) = (s', OK)) /\
+  (~ In t (kids (get (hp s) o)) -> s' = s).
+Proof. exact EffectProofs.C16_remove. Qed.
+
+Theorem C16_remove_all : forall s o ids s',
+  WF s -> step s (ChRemoveAll o ids) = (s', OK) ->
+  kids (get (hp s') o) = filter (fun c => negb (memz (tid (get (hp s) c)) ids)) (kids (get (hp s) o)).
+Proof. exact EffectProofs.C16_remove_all. Qed.
+
+Theorem C16_floordiv : forall s o vs s',
+  WF s -> step s (OpFloordiv o vs) = (s', OK) ->
+  kids (get (hp s') o) = kids (get (hp s) o) ++ others (kids (get (hp s) o)) (dedup (somes vs)) /\
+  step s (SetChildren o (map Some (kids (get (hp s) o)) ++ vs)) = (s', OK).
+Proof. exact EffectProofs.C16_floordiv. Qed.
+
+Theorem C16_wbs_remove : forall s w t s',
+  step s (WbsRemove w (Some t)) = (s', OK) ->
+  exists l, wbs_tasks s w = Ok l /\
+    ((exists q, In q (wroot s w :: l) /\ In t (kids (get (hp s) q)) /\ ch_remove s q (Some t) = (s', OK)) \/
+     (s' = s /\ forall q, In q (wroot s w :: l) -> ~ In t (kids (get (hp s) q)))).
+Proof. exact EffectProofs.C16_wbs_remove. Qed.
+
+(* dependency facades: the value handed to the setter *)
+Theorem C16_ln_append_is_set_links : forall d s t x,
+  ln_append d s t (Some x) = set_links d s t (map Some (fwd d (get (hp s) t) ++ [x])).
+Proof. exact EffectProofs.ln_append_is_set_links. Qed.
+Theorem C16_ln_append_value : forall l x,
+  NoDup l -> dedup (somes (map Some (l ++ [x]))) = if memn x l then l else l ++ [x].
+Proof. exact EffectProofs.ln_append_value. Qed.
+Theorem C16_ln_remove_is_set_links : forall d s t x,
+  In x (fwd d (get (hp s) t)) ->
+  ln_remove d s t (Some x) = set_links d s t (map Some (without x (fwd d (get (hp s) t)))).
+Proof. exact EffectProofs.ln_remove_is_set_links. Qed.
+Theorem C16_ln_remove_value : forall l x, NoDup l -> dedup (somes (map Some (without x l))) = without x l.
+Proof. exact EffectProofs.ln_remove_value. Qed.
+Theorem C16_ln_remove_absent : forall d s t x, ~ In x (fwd d (get (hp s) t)) -> ln_remove d s t (Some x) = (s, OK).
+Proof. exact EffectProofs.ln_remove_absent. Qed.
+Theorem C16_op_shift_is_set_links : forall d s t vs,
+  op_shift d s t vs = set_links d s t (map Some (fwd d (get (hp s) t)) ++ vs).
+Proof. exact EffectProofs.op_shift_is_set_links. Qed.
+Theorem C16_op_shift_value : forall l vs,
+  NoDup l -> dedup (somes (map Some l ++ vs)) = l ++ others l (dedup (somes vs)).
+Proof. exact EffectProofs.op_shift_value. Qed.
+
+(* ---- frame of move / sort / reorder / the second phase of insert ---- *)
+Theorem C16_frame_only_kids : forall o s s', only_kids_changed o s s' ->
+  wroots s' = wroots s /\ length (hp s') = length (hp s) /\
+  forall x, let T := get (hp s) x in let T' := get (hp s') x in
+    tid T' = tid T /\ par T' = par T /\ preds T' = preds T /\ succs T' = succs T /\ own T' = own T /\
+    hidden T' = hidden T /\ prio T' = prio T /\ name T' = name T /\ est T' = est T /\
+    (x <> o -> kids T' = kids T).
+Proof. exact EffectProofs.C16_frame_only_kids. Qed.
+
+Theorem C16_set_kids_perm_WF : forall s o l, WF s -> Permutation l (kids (get (hp s) o)) -> WF (set_kids s o l).
+Proof. exact EffectProofs.set_kids_perm_WF. Qed.
+
+Theorem C16_only_kids_perm_WF : forall o s s',
+  only_kids_changed o s s' -> Permutation (kids (get (hp s') o)) (kids (get (hp s) o)) -> WF s -> WF s'.
+Proof. exact EffectProofs.only_kids_perm_WF. Qed.
+
+(* ================= Part 2: the setters ================= *)
+(* t.parent = p.  eff_par: the parent actually written (p, or the hidden WBS root when p = None and t is owned);
+   insub h t x: x lies in the subtree of t; rest: tid, preds, succs, hidden, prio, name, est *)
+Theorem C16_set_parent : forall s t p s',
+  I_fin s -> I_pc s -> step s (SetParent t p) = (s', OK) ->
+  let h := hp s in
+  let h' := hp s' in
+  let p2 := eff_par s t p in
+  wroots s' = wroots s /\ length h' = length h /\
+  par (get h' t) = p2 /\
+  (forall x, x <> t -> par (get h' x) = par (get h x)) /\
+  (forall x, kids (get h' x) = without t (kids (get h x)) ++ (if onat_eqb p2 (Some x) then [t] else [])) /\
+  (forall x, own (get h' x) =
+             match p2 with
+             | Some p' => match own (get h p') with
+                          | Some w => if insub h t x && Nat.ltb x (length h) then Some w else own (get h x)
+                          | None => own (get h x)
+                          end
+             | None => own (get h x)
+             end) /\
+  (forall x, ParentProofs.rest (get h' x) = ParentProofs.rest (get h x)).
+Proof. exact FrameProofs.step_set_parent_effect. Qed.
+
+(* t.children = vs / wbs.roots = vs.  released: the old children left out; inA / inB: below an adopted / a
+   released task *)
+Theorem C16_set_children : forall s t vs s',
+  I_fin s -> I_pc s -> step s (SetChildren t vs) = (s', OK) ->
+  let h := hp s in
+  let h' := hp s' in
+  let value := dedup (somes vs) in
+  let rel := released h t value in
+  wroots s' = wroots s /\ length h' = length h /\
+  (forall x, par (get h' x) = if memn x value then Some t else if memn x rel then None else par (get h x)) /\
+  (forall q, kids (get h' q) = if Nat.eqb q t then value
+                               else filter (fun c => negb (memn c value)) (kids (get h q))) /\
+  (forall x, own (get h' x) =
+             match own (get h t) with
+             | Some w => if inA h value x then Some w else if inB h t value x then None else own (get h x)
+             | None => if inB h t value x then None else own (get h x)
+             end) /\
+  (forall x, ParentProofs.rest (get h' x) = ParentProofs.rest (get h x)).
+Proof. exact FrameProofs.step_set_children_effect. Qed.
+
+Theorem C16_set_children_own : forall s t vs s',
+  WF s -> t < length (hp s) -> (forall v, In (Some v) vs -> v < length (hp s)) ->
+  set_children s t vs = (s', OK) ->
+  let h := hp s in
+  let adopted x := exists v, In (Some v) vs /\ Sub h v x in
+  let released x := exists c, In c (kids (get h t)) /\ ~ In (Some c) vs /\ Sub h c x in
+  forall x,
+    (adopted x -> forall w, own (get h t) = Some w -> own (get (hp s') x) = Some w) /\
+    (released x -> ~ (adopted x /\ own (get h t) <> None) -> own (get (hp s') x) = None) /\
+    (~ adopted x -> ~ released x -> own (get (hp s') x) = own (get h x)).
+Proof. exact ChildrenProofs.set_children_effect_own. Qed.
+
+(* t.predecessors = vs (d = true) / t.successors = vs (d = false).  fwd: the assigned list, bwd: the mirror list;
+   core: every field except preds / succs *)
+Theorem C16_set_links : forall d s t vs s',
+  I_fin s -> I_sym s -> step s (SetLinks d t vs) = (s', OK) ->
+  let h := hp s in
+  let h' := hp s' in
+  let value := dedup (somes vs) in
+  wroots s' = wroots s /\ length h' = length h /\
+  fwd d (get h' t) = value /\
+  (forall x, x <> t -> fwd d (get h' x) = fwd d (get h x)) /\
+  (forall x, bwd d (get h' x) = without t (bwd d (get h x)) ++ (if memn x value then [t] else [])) /\
+  (forall x, core (get h' x) = core (get h x)).
+Proof. exact FrameProofs.step_set_links_effect. Qed.
+
+(* C16_mirror: the mirror side of every edited dependency, case by case *)
+Theorem C16_mirror : forall d s t value x,
+  I_fin s -> I_sym s -> t < length (hp s) -> (forall v, In v value -> v < length (hp s)) -> NoDup value ->
+  let h := hp s in
+  let l' := bwd d (get (hp (set_links_write d s t value)) x) in
+  (In x value -> In x (fwd d (get h t)) -> l' = without t (bwd d (get h x)) ++ [t]) /\
+  (In x value -> ~ In x (fwd d (get h t)) -> l' = bwd d (get h x) ++ [t]) /\
+  (~ In x value -> In x (fwd d (get h t)) -> l' = without t (bwd d (get h x))) /\
+  (~ In x value -> ~ In x (fwd d (get h t)) -> l' = bwd d (get h x)).
+Proof. exact LinksProofs.set_links_effect_bwd_cases. Qed.
+
+(* ---- frames: what an accepted setter call leaves alone ---- *)
+Theorem C16_frame_set_parent : forall s t p s',
+  WF s -> step s (SetParent t p) = (s', OK) ->
+  let h := hp s in
+  let h' := hp s' in
+  wroots s' = wroots s /\ length h' = length h /\
+  forall x,
+    (x <> t -> par (get h' x) = par (get h x)) /\
+    (par (get h t) <> Some x -> eff_par s t p <> Some x -> kids (get h' x) = kids (get h x)) /\
+    (~ Sub h t x -> own (get h' x) = own (get h x)) /\
+    preds (get h' x) = preds (get h x) /\ succs (get h' x) = succs (get h x) /\
+    tid (get h' x) = tid (get h x) /\ hidden (get h' x) = hidden (get h x) /\
+    prio (get h' x) = prio (get h x) /\ name (get h' x) = name (get h x) /\ est (get h' x) = est (get h x).
+Proof. exact FrameProofs.frame_set_parent. Qed.
+
+Theorem C16_frame_set_children : forall s t vs s',
+  WF s -> step s (SetChildren t vs) = (s', OK) ->
+  let h := hp s in
+  let h' := hp s' in
+  let value := dedup (somes vs) in
+  wroots s' = wroots s /\ length h' = length h /\
+  (forall x, ~ In x value -> ~ (In x (kids (get h t)) /\ ~ In x value) -> par (get h' x) = par (get h x)) /\
+  (forall q, q <> t -> kids (get h' q) = filter (fun c => negb (memn c value)) (kids (get h q))) /\
+  (forall q, q <> t -> (forall c, In c (kids (get h q)) -> ~ In c value) -> kids (get h' q) = kids (get h q)) /\
+  (forall x, ~ (exists v, In (Some v) vs /\ Sub h v x) ->
+             ~ (exists c, In c (kids (get h t)) /\ ~ In (Some c) vs /\ Sub h c x) ->
+             own (get h' x) = own (get h x)) /\
+  (forall x, preds (get h' x) = preds (get h x) /\ succs (get h' x) = succs (get h x) /\
+             tid (get h' x) = tid (get h x) /\ hidden (get h' x) = hidden (get h x) /\
+             prio (get h' x) = prio (get h x) /\ name (get h' x) = name (get h x) /\ est (get h' x) = est (get h x)).
+Proof. exact FrameProofs.frame_set_children. Qed.
+
+Theorem C16_frame_set_links : forall d s t vs s',
+  WF s -> step s (SetLinks d t vs) = (s', OK) ->
+  let h := hp s in
+  let h' := hp s' in
+  let value := dedup (somes vs) in
+  wroots s' = wroots s /\ length h' = length h /\
+  forall x,
+    (x <> t -> fwd d (get h' x) = fwd d (get h x)) /\
+    (~ In x value -> ~ In x (fwd d (get h t)) -> bwd d (get h' x) = bwd d (get h x)) /\
+    par (get h' x) = par (get h x) /\ kids (get h' x) = kids (get h x) /\ own (get h' x) = own (get h x) /\
+    tid (get h' x) = tid (get h x) /\ hidden (get h' x) = hidden (get h x) /\
+    prio (get h' x) = prio (get h x) /\ name (get h' x) = name (get h x) /\ est (get h' x) = est (get h x).
+Proof. exact FrameProofs.frame_set_links. Qed.
+
+(* the facades and operators on ONE task are calls of the setters, so the frames above are theirs
+   (move / sort / reorder / the second phase of insert: C16_frame_only_kids; the remove_all loops and the
+   list-level operators are sequences of such calls) *)
+Theorem C16_frame_derived : forall s,
+  (forall o t, step' s (ChAppend o (Some t)) = step' s (SetParent t (Some o))) /\
+  (forall o t, In t (kids (get (hp s) o)) ->
+     step' s (ChRemove o (Some t)) = step' s (SetChildren o (map Some (without t (kids (get (hp s) o)))))) /\
+  (forall o t, ~ In t (kids (get (hp s) o)) -> step' s (ChRemove o (Some t)) = (s, OK)) /\
+  (forall o vs, step' s (OpFloordiv o vs) = step' s (SetChildren o (map Some (kids (get (hp s) o)) ++ vs))) /\
+  (forall d t x, step' s (LnAppend d t (Some x)) = step' s (SetLinks d t (map Some (fwd d (get (hp s) t) ++ [x])))) /\
+  (forall d t x, In x (fwd d (get (hp s) t)) ->
+     step' s (LnRemove d t (Some x)) = step' s (SetLinks d t (map Some (without x (fwd d (get (hp s) t)))))) /\
+  (forall d t x, ~ In x (fwd d (get (hp s) t)) -> step' s (LnRemove d t (Some x)) = (s, OK)) /\
+  (forall d t vs, step' s (OpShift d t vs) = step' s (SetLinks d t (map Some (fwd d (get (hp s) t)) ++ vs))).
+Proof. exact FrameProofs.frame_derived. Qed.
+
+(* ---- non-vacuity: a reachable well-formed state on which a call of every kind above is accepted ---- *)
+Definition c16_demo : state :=
+  run init [NewTask 0%Z None [] None; NewTask 3%Z (Some 1%Z) [98%Z] None; NewTask 1%Z (Some 1%Z) [97%Z] None;
+            NewTask 2%Z (Some 0%Z) [97%Z; 98%Z] None; NewTask 5%Z None [] None; NewWbs;
+            OpFloordiv 0 [Some 1; Some 2; Some 3]; SetLinks true 1 [Some 4]].
+
+Example c16_demo_WF : WF c16_demo.
+Proof. apply wf_b_WF. vm_compute. reflexivity. Qed.
+
+Example c16_demo_accepted :
+  map (fun o => (outcome_code (snd (step c16_demo o)), kids (get (hp (fst (step c16_demo o))) 0)))
+      [ChMove 0 [Some 3] (Some 1) None; ChMove 0 [Some 1] None (Some 3); ChMove 0 [Some 1; Some 2] None (Some 3);
+       ChInsert 0 1%Z (Some 4); ChInsert 0 (-1)%Z (Some 1); ChInsert 0 3%Z (Some 4);
+       ChSort 0 KId false; ChSort 0 KPrio false; ChSort 0 KPrio true; ChSort 0 KName false;
+       ChReorder 0 [2%Z; 3%Z]; ChAppend 0 (Some 1); ChRemove 0 (Some 2); ChRemoveAll 0 [3%Z; 2%Z; 7%Z];
+       OpFloordiv 0 [Some 4; None; Some 2; Some 4]; SetChildren 0 [Some 3; None; Some 4; Some 3]]
+  = [(0, [3; 1; 2]); (0, [2; 3; 1]); (0, [3; 2; 1]);
+     (0, [1; 4; 2; 3]); (0, [2; 3; 1]); (0, [1; 2; 3; 4]);
+     (0, [2; 3; 1]); (0, [3; 1; 2]); (0, [1; 2; 3]); (0, [2; 3; 1]);
+     (0, [3; 1; 2]); (0, [2; 3; 1]); (0, [1; 3]); (0, [2]);
+     (0, [1; 2; 3; 4]); (0, [3; 4])].
+Proof. vm_compute. reflexivity. Qed.
+
+(* the setters on the demo state: re-parenting 1 under 4 takes nothing else along; roots assignment adopts 4 and
+   0 with its subtree into the WBS (hidden root 5) - the owner reaches the whole subtree; the mirror side *)
+Example c16_demo_setters :
+  snd (step c16_demo (SetParent 1 (Some 4))) = Err /\        (* 1 depends on 4 *)
+  (let s' := fst (step c16_demo (SetParent 2 (Some 4))) in
+   snd (step c16_demo (SetParent 2 (Some 4))) = OK /\
+   kids (get (hp s') 0) = [1; 3] /\ kids (get (hp s') 4) = [2] /\ par (get (hp s') 2) = Some 4) /\
+  (let s' := fst (step c16_demo (SetChildren 5 [Some 0])) in
+   snd (step c16_demo (SetChildren 5 [Some 0])) = OK /\
+   map (fun x => own (get (hp s') x)) [0; 1; 2; 3; 4] = [Some 0; Some 0; Some 0; Some 0; None]) /\
+  (let s' := fst (step c16_demo (SetLinks true 1 [])) in
+   snd (step c16_demo (SetLinks true 1 [])) = OK /\ succs (get (hp c16_demo) 4) = [1] /\ succs (get (hp s') 4) = []).
 Proof. vm_compute. repeat split; reflexivity. Qed.
 
-(* the mirror side of an edited dependency is updated *)
-Example C16_demo_mirror :
-  let s := fst (step demo (SetLinks true 3 [])) in preds (get (hp s) 3) = [] /\ succs (get (hp s) 2) = [] /\
-  succs (get (hp demo) 2) = [3].
-Proof. vm_compute. repeat split; reflexivity. Qed.
-
-Print Assumptions C16_demo_effects.
-Print Assumptions C16_demo_mirror.
+Print Assumptions C16_move.
+Print Assumptions C16_move_one.
+Print Assumptions C16_insert.
+Print Assumptions C16_sort.
+Print Assumptions C16_sort_order_total.
+Print Assumptions C16_sort_order_trans.
+Print Assumptions C16_sort_order_antisym.
+Print Assumptions C16_sort_key_kind.
+Print Assumptions C16_sort_key_eqb.
+Print Assumptions C16_reorder.
+Print Assumptions C16_append.
+Print Assumptions C16_set_children_list.
+Print Assumptions C16_remove.
+Print Assumptions C16_remove_all.
+Print Assumptions C16_floordiv.
+Print Assumptions C16_wbs_remove.
+Print Assumptions C16_ln_append_is_set_links.
+Print Assumptions C16_ln_append_value.
+Print Assumptions C16_ln_remove_is_set_links.
+Print Assumptions C16_ln_remove_value.
+Print Assumptions C16_ln_remove_absent.
+Print Assumptions C16_op_shift_is_set_links.
+Print Assumptions C16_op_shift_value.
+Print Assumptions C16_frame_only_kids.
+Print Assumptions C16_set_kids_perm_WF.
+Print Assumptions C16_only_kids_perm_WF.
+Print Assumptions C16_set_parent.
+Print Assumptions C16_set_children.
+Print Assumptions C16_set_children_own.
+Print Assumptions C16_set_links.
+Print Assumptions C16_mirror.
+Print Assumptions C16_frame_set_parent.
+Print Assumptions C16_frame_set_children.
+Print Assumptions C16_frame_set_links.
+Print Assumptions C16_frame_derived.
+Print Assumptions c16_demo_WF.
+Print Assumptions c16_demo_accepted.
+Print Assumptions c16_demo_setters.
